@@ -18,6 +18,9 @@ Part A (policy): the REAL `meson setup --backend=none` of $VERIF_REPO on generat
   the cosmetic not_found_message: keyword is sprinkled over the lookups (same arguments otherwise -> same answer).
   Links that name a variable the subproject does not define (fallback: [sub, var], `name = var` in [provide]):
   nothing suitable comes from them (optional -> not-found, required -> error) unless the subproject overrode the name.
+  A third of the worlds let the subproject's dependency take its version from the subproject's project() (main project
+  has another version); table cells are also looked up from INSIDE a subproject that keeps its providers in its own
+  subproject directory (default name or another one).
 Part B (integrity): wrap worlds with a corruption class at a location, a recorded-hash class and an injected
   fault, through `meson setup` and `meson subprojects download`.  Monitors wrap shutil.unpack_archive,
   urllib.request.urlopen, Resolver.get_data/check_hash/copy_tree.  Online: at every unpack the monitor hashes
@@ -78,7 +81,7 @@ def case_dir() -> str:
 # ====================================================================================================
 # Part A: one world
 # ====================================================================================================
-_RLINE = re.compile(r'^Message: R\|(\d+)\|([^|]*)\|([^|]*)\|([^|\n]*)$', re.M)
+_RLINE = re.compile(r'^(?:[\w.-]+\| )?Message: R\|(\d+)\|([^|]*)\|([^|]*)\|([^|\n]*)$', re.M)
 
 
 def _ref_world(world: dict) -> R.World:
@@ -144,6 +147,10 @@ def _policy_mechanism(world: dict, lk: dict, allowed: T.Set[tuple], obs: tuple, 
         flags.append('not-on-disk')
     if world.get('sub_var_missing'):
         flags.append('fallback-variable-missing')
+    if world.get('nested'):
+        flags.append('looked-up-in-subproject-with-subproject_dir-' + world['nested'])
+    if world.get('implicit_ver'):
+        flags.append('version-from-subproject-project')
     if lk['explicit']:
         flags.append('explicit')
     elif world['provide']:
@@ -236,10 +243,11 @@ def _judge_policy_run(world: dict, r: runner.Result, out: dict, c: T.Callable, p
         per: T.List[T.List[dict]] = []
         cur: T.Optional[T.List[dict]] = None
         sub_done_after: T.List[bool] = []
+        where = G.NEST if world.get('nested') else ''     # the (sub)project whose build file makes the lookups
         sub_done = world['pre'] in ('configured', 'override_sub') or (world['pre'] == 'failed_sub' and not world.get('sub_fails'))
         for ev in r.records:
             c('monitor:' + ev['ev'])
-            if ev['ev'] == 'lookup-begin' and ev['depth'] == 1 and ev.get('subproject') == '' and G.DEP in ev['names']:
+            if ev['ev'] == 'lookup-begin' and ev['depth'] == 1 and ev.get('subproject') == where and G.DEP in ev['names']:
                 cur = []            # (a subproject's own top-level lookups of other names are not ours)
                 per.append(cur)
             if cur is not None:
@@ -718,7 +726,7 @@ def main() -> int:
     runner.preload()
     rng = chk.rng
     quick = chk.tier == 'quick'
-    budget = 120.0 if quick else 1050.0
+    budget = 100.0 if quick else 1050.0
     items: T.List[T.Tuple[str, dict]] = []
     # ---- Part A -------------------------------------------------------------------------------------
     if quick:
@@ -761,6 +769,12 @@ def main() -> int:
         items.append(('A', wld))
     for wld in G.a_failing_sub_worlds(rng, 60 if quick else 800):
         items.append(('A', wld))
+    for wld in G.a_nested_worlds(rng, 50 if quick else 500):
+        items.append(('A', wld))
+    # a third of the worlds with a subproject: its dependency takes its version from the subproject's project()
+    for _kind, wld in items:
+        if wld.get('sub') and not wld.get('sub_download') and rng.random() < 0.33:
+            wld['implicit_ver'] = True
     n_a = len(items)
     # ---- Part B -------------------------------------------------------------------------------------
     bspecs = b_specs(chk.tier, rng)
@@ -785,7 +799,7 @@ def main() -> int:
     fam: T.Dict[str, T.List[int]] = {}
     for j in rest:
         wld = items[j][1]
-        key = 'reconf' if wld.get('phase2') else ('failing' if wld.get('side_overrides') else
+        key = 'nested' if wld.get('nested') else 'reconf' if wld.get('phase2') else ('failing' if wld.get('side_overrides') else
                                                   ('seq' if len(wld['seq']) != 2 or not _same_args(*wld['seq']) else 'cell'))
         fam.setdefault(key, []).append(j)
     promoted = [j for key, js in sorted(fam.items()) for j in js[:(45 if quick else 200)]]
